@@ -71,7 +71,8 @@ type Snapshot struct {
 	MarksOK  bool
 	MapSizes []int // sizes of every map reachable from the backend value
 	QueueLen int
-	FDOpen   bool // the instance's descriptor is still an inotify descriptor of this process
+	FDOpen   bool   // the instance's descriptor is still an inotify descriptor of this process
+	Reader   string // what the reader goroutine is parked on
 }
 
 type WatcherRec struct {
@@ -93,12 +94,14 @@ type WatcherRec struct {
 	cmode       string
 	cstop       int
 	nInstBefore int
+	ReaderIdx   int // ordinal of this watcher's reader among the reader tasks
 }
 
 type Exec struct {
 	sc                  *Scenario
 	sim                 *sinot.Sim
 	kq                  kqState
+	nReaders            int
 	S                   *ssim.Sched
 	root                string
 	W                   []*WatcherRec
@@ -234,6 +237,8 @@ func (x *Exec) api(task string, op Op, phase string) *APICall {
 			wr.CreateErr = c.Class
 		}
 		if w != nil {
+			wr.ReaderIdx = x.nReaders
+			x.nReaders++
 			wr.W = w
 			wr.Cap = cap(w.Events)
 			if x.nInst() > wr.nInstBefore {
@@ -462,9 +467,9 @@ func (x *Exec) mainTask() {
 	}
 	// Epilogue: faults stop, draining consumers everywhere.
 	x.stopFaults()
-	if sc.Cfg.Terminal {
+	if sc.Cfg.Terminal || sc.Family == "multi" {
 		ssim.Quiesce()
-		x.snapshot("terminal")
+		x.snapshot("predrain")
 	}
 	for _, wr := range x.W {
 		if wr.consumer != nil {
@@ -472,6 +477,15 @@ func (x *Exec) mainTask() {
 		}
 	}
 	ssim.Quiesce()
+	if sc.Cfg.QueueLimit > 0 && len(x.W) > 0 && x.W[0].W != nil && x.W[0].ClosedRet == 0 {
+		// survivability after an overflow: a fresh watch, a fresh change, its event, a Remove
+		x.world("main", Op{K: OpMkdir, P: "zz_probe"})
+		x.api("main", Op{K: OpAdd, W: 0, P: "zz_probe"}, "probe")
+		x.world("main", Op{K: OpCreate, P: "zz_probe/after-overflow"})
+		ssim.Quiesce()
+		x.api("main", Op{K: OpRemove, W: 0, P: "zz_probe"}, "probe")
+		ssim.Quiesce()
+	}
 	x.snapshot("final")
 	for _, wr := range x.W {
 		if wr.W != nil {
